@@ -4,6 +4,7 @@ package dragonboat
 
 import (
 	"fmt"
+	"os"
 	"sort"
 	"strings"
 	"testing"
@@ -25,7 +26,7 @@ var (
 		"nodesim-foreign-result", "nodesim-panic"}
 	nsFamC17 = []string{"nodesim-no-leader-in-fair-phase", "nodesim-no-progress-in-fair-phase",
 		"nodesim-replica-not-caught-up", "stuck-quorum-needs-self-removed-replica",
-		"stuck-higher-term-replica-ignores-leader", "nodesim-panic"}
+		"stuck-higher-term-replica-ignores-leader", "nodesim-idle-quiescent-shard-stays-leaderless", "nodesim-panic"}
 )
 
 type nsWeight struct {
@@ -45,6 +46,9 @@ type nsProfile struct {
 }
 
 func nsSilence() {
+	if os.Getenv("VF_NS_LOG") != "" {
+		return
+	}
 	for _, p := range []string{"dragonboat", "raft", "rsm", "logdb", "transport", "grpc", "config", "raftpb", "tan", "registry", "settings", "utils"} {
 		logger.GetLogger(p).SetLevel(logger.CRITICAL)
 	}
@@ -319,15 +323,6 @@ func (g *nsGen) configChange() {
 	to := g.timeout("timeout")
 	voters := nsKeys(mem.Addresses)
 	nvs := nsKeys(mem.NonVotings)
-	spare := uint64(0)
-	for id := uint64(1); id <= nsMaxID; id++ {
-		_, v := mem.Addresses[id]
-		_, nv := mem.NonVotings[id]
-		if !v && !nv && !mem.Removed[id] && !s.reps[id].started {
-			spare = id
-			break
-		}
-	}
 	switch g.pick("cckind", 8) {
 	case 0, 1, 2: // remove a member (possibly the leader or the requester itself)
 		all := append(append([]uint64{}, voters...), nvs...)
@@ -341,12 +336,14 @@ func (g *nsGen) configChange() {
 		}
 		s.configChange(via, pb.RemoveNode, tgt, to)
 	case 3, 4: // add a voter
+		spare := s.spareFor(pb.AddNode)
 		if spare == 0 {
 			return
 		}
 		s.flag("act-cc-add")
 		s.configChange(via, pb.AddNode, spare, to)
 	case 5: // add a non-voting replica
+		spare := s.spareFor(pb.AddNonVoting)
 		if spare == 0 {
 			return
 		}
@@ -446,15 +443,7 @@ func (g *nsGen) macroC07() {
 			}
 			q = s.configChange(l, pb.RemoveNode, tgt.id, uint64(20*E))
 		} else {
-			spare := uint64(0)
-			for id := uint64(s.opts.voters) + 1; id <= nsMaxID; id++ {
-				if !s.reps[id].started && !mem.Removed[id] {
-					if _, ok := l.n.sm.GetMembership().Addresses[id]; !ok {
-						spare = id
-						break
-					}
-				}
-			}
+			spare := s.spareFor(pb.AddNode)
 			if spare == 0 {
 				break
 			}
@@ -535,9 +524,11 @@ func (g *nsGen) macroQuiesceRace() {
 		who = x
 	}
 	g.nearQuiesce(who, g.pick("delta", 3*E/2)-E/4)
-	s.logf("heal all links")
-	s.healAll()
-	s.roundsN(g.pick("after", 4*E))
+	if g.pick("heal-in-macro", 4) == 0 {
+		s.logf("heal all links")
+		s.healAll()
+		s.roundsN(g.pick("after", 4*E))
+	}
 }
 
 // macroRestartRepropose: proposals through a replica, an in-process restart of
